@@ -48,7 +48,7 @@ func (vc *VC) execBuiltinArgs(fr *Frame, n *Node, b *ssa.Builtin, call *ssa.Call
 			fr.regs[res] = app("str.len_", args[0])
 		case *types.Map:
 			r := vc.fresh(fr.prefix+".len", "Int")
-			n.assume(sEq(r, sIte(sEq(args[0], "0"), "0", app("select", vc.cur(n.env, vc.mapLen().Name), args[0]))))
+			n.assume(sEq(r, sIte(sEq(args[0], "0"), "0", app("select", vc.cur(n.env, vc.mapLenOf(u).Name), args[0]))))
 			n.assume(app("<=", "0", r))
 			fr.regs[res] = r
 		case *types.Array:
@@ -90,9 +90,9 @@ func (vc *VC) execBuiltinArgs(fr *Frame, n *Node, b *ssa.Builtin, call *ssa.Call
 		m, k := args[0], args[1]
 		vc.guardCheckMap(fr, n, call.Args[0], true, pos)
 		od := vc.cur(n.env, dom.Name)
-		ol := vc.cur(n.env, vc.mapLen().Name)
+		ol := vc.cur(n.env, vc.mapLenOf(mt).Name)
 		nd := vc.bump(n.env, dom.Name)
-		nl := vc.bump(n.env, vc.mapLen().Name)
+		nl := vc.bump(n.env, vc.mapLenOf(mt).Name)
 		n.assume(sIte(sEq(m, "0"), sEq(nd, od), sEq(nd, app("store", od, m, app("store", app("select", od, m), k, "false")))))
 		n.assume(sEq(nl, sIte(sAnd(sNot(sEq(m, "0")), app("select", app("select", od, m), k)), app("store", ol, m, app("-", app("select", ol, m), "1")), ol)))
 	case "close":
